@@ -115,6 +115,7 @@ fn parse_transitions<T: StrApi>(config: &str, bytes: &[u8], r: u32, l: &mut Loca
     let ti = T::ti();
     let e = spec_parse(bytes, r, ti);
     let st = || vec![bhex(bytes), r.to_string()];
+    l.enter(config, "parse_bytes", st, r as u64);
     // parse_bytes accepts arbitrary bytes
     let eo: Expect<Z> = match &e {
         Expect::Is(Obs::R(Ok(v))) => Expect::Is(Obs::OV(Some(v.clone()))),
@@ -140,6 +141,7 @@ fn parse_transitions<T: StrApi>(config: &str, bytes: &[u8], r: u32, l: &mut Loca
 fn slice_transitions<T: StrApi>(config: &str, digits: &[u8], r: u32, l: &mut Local) {
     let ti = T::ti();
     let st = || vec![bhex(digits), r.to_string()];
+    l.enter(config, "from_radix_be", st, r as u64);
     let e = spec_from_radix(digits, r, true, ti);
     let o = catch(|| opt_obs(T::from_radix_be_(digits, r)));
     l.check(config, "from_radix_be", st, r as u64, &e, &o);
@@ -477,6 +479,7 @@ pub fn parse_check<T: StrApi>(run: &mut Run) {
 fn radix_out_transitions<T: StrApi>(config: &str, x: T, zx: &Z, r: u32, l: &mut Local) {
     let ti = T::ti();
     let st = || vec![vengine::hex(&x.le()), r.to_string()];
+    l.enter(config, "to_radix_le", st, r as u64);
     if r <= 36 {
         let e: Expect<Z> = Expect::Is(Obs::S(zx.to_str_radix(r)));
         let o = catch(|| Obs::S(x.to_str_radix_(r)));
